@@ -10,3 +10,5 @@ import BB.Spec.Decode16
 import BB.Spec.Intent
 import BB.Spec.Legal
 import BB.Item
+import BB.Dict
+import BB.Passes
